@@ -11,7 +11,8 @@ Case kinds (see RULE for pools and counts):
                                                        with a 'frac' key - a fraction of a second is written after the
                                                        seconds - or with a 'us' key - the argument is a host datetime
                                                        carrying that many microseconds, not text - is oracle only:
-                                                       request -> None)
+                                                       request -> None; so is a serial case with a 'text' key - the
+                                                       serial is handed over as numeric text, str(s))
   misc, formula                                        model comparison only (type juggling, wrong arity, end-to-end formulas)
   sw_dates, sw_serial, sw_pairs, sw_edate              sharded direct-call sweeps, oracle only (request -> None)
   sw_model (thorough)                                  the Lean model's calendar against datetime on every day 1900..9999
@@ -30,9 +31,9 @@ FUNCTIONS = [_DT + n for n in ('DATE', 'TIME', 'DATEVALUE', 'TIMEVALUE', 'YEAR',
                                'DAYS', 'DATEDIF', 'EDATE', 'WEEKDAY')] + \
             ['hotxlfp.formulas.utils:parse_date', 'hotxlfp.formulas.utils:serialize_date', 'hotxlfp.formulas.utils:parse_number',
              'hotxlfp.formulas.utils:any_is_error', 'hotxlfp.formulas.utils:epoch_seconds', 'hotxlfp.helper.number:to_number']
-RULE = ('quick ~32 500 cases (~118 000 at scale 5), thorough ~320 000; counts below: quick, thorough in brackets; seeded '
+RULE = ('quick ~32 800 cases (~118 900 at scale 5), thorough ~322 000; counts below: quick, thorough in brackets; seeded '
         'counts x scale (5 in quick when a modelled function changed or the Lean build broke); duplicates dropped. every case '
-        'but the sw_* shards and the iso cases with a UTC offset, a fraction of a second or microseconds is compared with the Lean model (ints, text, errors exact; floats within 4 ulp or 1e-9 relative; '
+        'but the sw_* shards, the iso cases with a UTC offset, a fraction of a second or microseconds and the serial cases with key text is compared with the Lean model (ints, text, errors exact; floats within 4 ulp or 1e-9 relative; '
         'date-times within 2 us + 2^-49 relative; a model answer `(o ..)` = no opinion, not compared); (a)-(h) and the sweeps '
         'are also judged by the oracle (datetime, exact ints). seeded date = uniform day of 1900-01-01..9999-12-31. (a) ymd: '
         'YEAR/MONTH/DAY/WEEKDAY(type absent,1,2,3) of DATE(y,m,d) on every day of 1900, 1904, 2000, 2100, 2400, 9999; the '
@@ -55,7 +56,11 @@ RULE = ('quick ~32 500 cases (~118 000 at scale 5), thorough ~320 000; counts be
         'microseconds handed to the six functions instead of text (key us); about 70 (810) cases, oracle only: the six '
         'components must be the ones written - the second is not rounded up, 23:59:59.999999 stays second 59 of the same day. (d) serial: YEAR/MONTH/DAY of whole-day serials 61..2958465 = ymd of 1899-12-30 + serial days: 15 fixed '
         '(61..63, 366/367, 1 Jan, 29 Feb, 1 Mar 2000, 1 Jan, 28 Feb, 1 Mar 2100, 2958100/01, 2958464/65), the month ends of '
-        '1900, 2000, 2100, 9999 and 40 (400) seeded years, 1200 (20000) seeded. (e) shorty: DATE(y,m,d) for 0 <= y < 1900 = '
+        '1900, 2000, 2100, 9999 and 40 (400) seeded years, 1200 (20000) seeded; key text (oracle only, request -> None): the same three '
+        'functions called directly on the serial as numeric TEXT str(s) - what a cell or variable holding "2020" hands over -: 17 fixed '
+        '(61, 62, 366, 367, 1000, 1900, 1999, 2000, 2020, 2024, 9999, 10000, 36526, 251231, 991231, 100101, 2958465: 1..4 digits look '
+        'like a year, 6 like yymmdd) + 40 x scale seeded in 61..9999 + 40 x scale seeded in 61..2958465 (both tiers; 97 at scale 1 before duplicates are dropped): '
+        'YEAR/MONTH/DAY must be the ymd of 1899-12-30 + s days, exact ints, as for the number. (e) shorty: DATE(y,m,d) for 0 <= y < 1900 = '
         'DATE(1900+y,m,d) = datetime(1900+y,m,d): y in {0, 1, 99, 100, 119, 120, 500, 1000, 1898, 1899} x {1 Jan, 28 Feb, 29 '
         'Feb, 1 Mar, 31 Dec} (29 Feb of a common year: model only) + 300 (3000) seeded valid ones. (f) pair: DAYS(b,a) and '
         'DATEDIF(a,b) d/m/y/ym (md, yd model-compared only) on 2500 (30000) seeded pairs of whole dates in either order (30 % '
@@ -103,6 +108,9 @@ TRUSTED = ['Python\'s datetime.date / calendar.monthrange as the reference prole
            'that includes the same text followed by a UTC offset (Z, +hh:mm, -hh:mm) or with a fraction written after the seconds '
            '(.5 .. .999999): those iso cases, and the ones that hand over a datetime with microseconds, are judged by the oracle only '
            '(the model is not asked: request -> None)',
+           'numeric text as a serial (serial cases with key text): how YEAR / MONTH / DAY read a digit string - as a number, or '
+           'through dateutil as a year or a yymmdd date - is library behaviour and not modelled; these cases are judged by the oracle '
+           'only (request -> None), by direct calls through call()',
            'float arithmetic of serialize_date / epoch_seconds on date-times with a non-dyadic time of day (model: exact '
            'rationals): the model comparison accepts floats within 4 ulp or 1e-9 relative and date-times within 2 microseconds '
            '+ 2^-49 of the microsecond count since 1900-01-01; the oracle compares exactly',
@@ -140,7 +148,9 @@ ASSUMPTIONS = ['"calendar difference in days" (DAYS, DATEDIF unit d) is read on 
                'floats 1.0, 2.0, 3.0 count as 1, 2, 3; every other number (0, 4, 11, 17, -1, 1.5, 2.5; Excel\'s types 11..17 '
                'included) must give #NUM!; text, blank and logical types are not judged',
                'a whole-day serial s in 61..2958465 means 1899-12-30 + s days (serials below 61 belong to C13: model '
-               'comparison only)',
+               'comparison only); the same serial arriving as numeric text (the digits of s, no sign, no blanks, no fraction) '
+               'means the same day: a digit string is a number to the date functions, never a year or a date written without '
+               'separators',
                'EDATE: start a whole date 1900..9999, offset a whole number in -120000..120000; #NUM! exactly when the target '
                'YEAR is outside 1900..9999, else the target month with the day clamped to its length',
                'DATE with 0 <= y < 1900 is judged only where (1900+y, m, d) is a valid date; invalid (y,m,d), years outside '
